@@ -35,7 +35,7 @@ CLAIMED["C08"] = ("§3 C08",
 
 CLAIMED["C09"] = ("§3 C09",
     "call-graph SCC condensation of package cue/parser modulo the nesting-guard functions, loop analysis for iteratively deepened trees, dominance of panics by the bailout flag, table agreement of the three escape alphabets (constants read from go/types)",
-    "Decides the parser's bailout discipline (every panic sets p.panicking first or is a reviewed unreachable assertion; entry points install the recover first), that recursion and iterative tree deepening are bounded by the nesting guard (two remaining unbounded loops are recorded as known findings), and that the escape alphabets and hex digit counts of literal.appendEscapedRune, literal.unquoteChar and scanner.scanEscape agree. It does not decide position containment nor that quoting an arbitrary string unquotes to the original.",
+    "Decides the parser's bailout discipline (every panic sets p.panicking first or is a reviewed unreachable assertion; entry points install the recover first), that recursion and iterative tree deepening are bounded by the nesting guard (two remaining unbounded loops are recorded as known findings), that the escape alphabets and hex digit counts of literal.appendEscapedRune, literal.unquoteChar and scanner.scanEscape agree, and that the identifier character classes of cue/ast and cue/scanner are the same predicates, with ast.IsValidIdent classifying decoded runes only through them. It does not decide position containment nor that quoting an arbitrary string unquotes to the original.",
     "hash counts and multi-line indentation are value-level; assertion panics are excepted by function with an unreachability argument")
 
 CLAIMED["C02"] = ("§3 C02",
@@ -100,7 +100,7 @@ CLAIMED["C05"] = ("§0.6 / §4 C05",
 
 CLAIMED["C04"] = ("§0.6 / §4 C04",
     "constant folding of the default-mode enum and of the mode()/combineDefault tables (finite domain, comparisons only), tagged-switch reachability on the Default selectors",
-    "Narrow: decides the finite skeleton of default bookkeeping — the mode lattice maybeDefault < isDefault < notDefault with combineDefault as its maximum, the mark table of mode(), that a single disjunct is returned as the default only when NumDefaults == 1 (several defaults stay a disjunction, none returns the value itself), and that NumDefaults counts exactly the surviving isDefault disjuncts. It does NOT decide the cross product, duplicate elimination or which disjuncts survive, which is the run-time core of the property.",
+    "Narrow: decides the finite skeleton of default bookkeeping — the mode lattice maybeDefault < isDefault < notDefault with combineDefault as its maximum, the mark table of mode(), that a single disjunct is returned as the default only when NumDefaults == 1 (several defaults stay a disjunction, none returns the value itself), that NumDefaults counts exactly the surviving isDefault disjuncts, and that duplicate elimination (appendDisjunct) marks the retained disjunct as default exactly when the dropped duplicate was. It does NOT decide the cross product, duplicate elimination or which disjuncts survive, which is the run-time core of the property.",
     "cross product and elimination of disjuncts are value-level and not decided")
 
 CLAIMED["C13"] = ("§0.7 / §4 C13",
